@@ -485,6 +485,54 @@ fn traits_view(case: &str, i: usize, ctx: &Ctx, rep: &mut Report) {
     if let Some(c) = PointTrait::coord(&pz) {
         check_coord(&c, [x, y, z, m], "PointTrait::coord(PointZ)", "PointZ", case, rep);
     }
+    if let Some(c) = PointTrait::coord(&p2) {
+        check_coord(&c, [x, y, 0.0, 0.0], "PointTrait::coord(Point)", "Point", case, rep);
+    }
+    if let Some(c) = PointTrait::coord(&&p2) {
+        check_coord(&c, [x, y, 0.0, 0.0], "PointTrait::coord(&Point)", "Point", case, rep);
+    }
+    if let Some(c) = PointTrait::coord(&&pm) {
+        check_coord(&c, [x, y, 0.0, m], "PointTrait::coord(&PointM)", "PointM", case, rep);
+    }
+    if let Some(c) = PointTrait::coord(&&pz) {
+        check_coord(&c, [x, y, z, m], "PointTrait::coord(&PointZ)", "PointZ", case, rep);
+    }
+    // the dimension count a POINT reports (PointTrait::dim): every index below it can be read
+    // from the point's coordinate and is the matching field
+    macro_rules! point_dim {
+        ($p:expr, $fields:expr, $name:expr) => {{
+            let p = $p;
+            let fields: [f64; 4] = $fields;
+            let dim = PointTrait::dim(p);
+            let expected: Vec<f64> = match dim {
+                geo_traits::Dimensions::Xy => vec![fields[0], fields[1]],
+                geo_traits::Dimensions::Xyz => vec![fields[0], fields[1], fields[2]],
+                geo_traits::Dimensions::Xym => vec![fields[0], fields[1], fields[3]],
+                geo_traits::Dimensions::Xyzm => vec![fields[0], fields[1], fields[2], fields[3]],
+                geo_traits::Dimensions::Unknown(n) => fields[..n.min(4)].to_vec(),
+            };
+            rep.count("point_level_dimension_reports_checked", 1);
+            if let Some(c) = PointTrait::coord(p) {
+                for (k, e) in expected.iter().enumerate() {
+                    let got = panicmon::catch(|| c.nth_or_panic(k));
+                    let ok = matches!(&got, Ok(v) if v.to_bits() == e.to_bits());
+                    if !ok {
+                        rep.violation(
+                            &format!("traits/{}/{}/point-dim/nth({})", $name, m_class(fields[3]), k),
+                            case,
+                            J::obj(vec![("point_dim", J::s(format!("{:?}", dim))), ("m", J::hex(fields[3].to_bits())), ("what", J::s(match got { Ok(v) => format!("returned {} instead of {}", v, e), Err(p) => format!("panicked: {}", p.msg) }))]),
+                        );
+                    }
+                }
+            }
+        }};
+    }
+    point_dim!(&p2, [x, y, 0.0, 0.0], "Point");
+    point_dim!(&&p2, [x, y, 0.0, 0.0], "Point");
+    point_dim!(&pm, [x, y, 0.0, m], "PointM");
+    point_dim!(&&pm, [x, y, 0.0, m], "PointM");
+    point_dim!(&pz, [x, y, z, m], "PointZ");
+    point_dim!(&&pz, [x, y, z, m], "PointZ");
     // through the multipoint and polyline views
     let other = PointZ::new(y, x, m, z);
     let mpz = MultipointZ::new(vec![other, pz]);
@@ -499,6 +547,29 @@ fn traits_view(case: &str, i: usize, ctx: &Ctx, rep: &mut Report) {
             check_coord(&c, [x, y, 0.0, m], "MultipointM.point(0).coord()", "PointM", case, rep);
         }
     }
+    let mp2 = Multipoint::new(vec![Point::new(y, x), p2]);
+    if MultiPointTrait::num_points(&mp2) == 2 {
+        // SAFETY: 1 < num_points()
+        let p = unsafe { MultiPointTrait::point_unchecked(&mp2, 1) };
+        if let Some(c) = PointTrait::coord(&p) {
+            check_coord(&c, [x, y, 0.0, 0.0], "Multipoint.point_unchecked(1).coord()", "Point", case, rep);
+        }
+    } else {
+        rep.violation("traits/Multipoint/num_points", case, J::s("num_points() differs from the number of points"));
+    }
+    if MultiPointTrait::num_points(&mpz) == 2 && MultiPointTrait::num_points(&mpm) == 2 {
+        // SAFETY: indices below num_points()
+        let p = unsafe { MultiPointTrait::point_unchecked(&mpz, 1) };
+        if let Some(c) = PointTrait::coord(&p) {
+            check_coord(&c, [x, y, z, m], "MultipointZ.point_unchecked(1).coord()", "PointZ", case, rep);
+        }
+        let p = unsafe { MultiPointTrait::point_unchecked(&mpm, 0) };
+        if let Some(c) = PointTrait::coord(&p) {
+            check_coord(&c, [x, y, 0.0, m], "MultipointM.point_unchecked(0).coord()", "PointM", case, rep);
+        }
+    } else {
+        rep.violation("traits/MultipointZ/num_points", case, J::s("num_points() differs from the number of points"));
+    }
     let plz = PolylineZ::with_parts(vec![vec![other, pz], vec![pz, other, pz]]);
     for li in 0..MultiLineStringTrait::num_line_strings(&plz) {
         if let Some(ls) = MultiLineStringTrait::line_string(&plz, li) {
@@ -507,6 +578,10 @@ fn traits_view(case: &str, i: usize, ctx: &Ctx, rep: &mut Report) {
                     let want = if (li, ci) == (0, 0) || (li, ci) == (1, 1) { [y, x, m, z] } else { [x, y, z, m] };
                     check_coord(&c, want, "PolylineZ.line_string(i).coord(j)", "PointZ", case, rep);
                 }
+                // SAFETY: ci < num_coords()
+                let c = unsafe { ls.coord_unchecked(ci) };
+                let want = if (li, ci) == (0, 0) || (li, ci) == (1, 1) { [y, x, m, z] } else { [x, y, z, m] };
+                check_coord(&c, want, "PolylineZ.line_string(i).coord_unchecked(j)", "PointZ", case, rep);
             }
         }
     }
